@@ -300,9 +300,43 @@ def _is_rule_or_objective(ck: Checker, func: Func, node: ast.AST, owner: str, de
     return True, f"holds at all {len(sites)} call site(s) of {func.name}"
 
 
+def _before_rebuild(ck: Checker) -> set[str]:
+    """qualnames of the functions that run on the caller's own statements: everything normalize() calls up to and including
+    expand_comparisons (the step that gives rules and objectives their new vectors), with all their callees"""
+    norm = ck.func("normalize:normalize")
+    ec_calls = resolved_calls(ck.prg, norm, "ngo.normalize:expand_comparisons")
+    ck.need(len(ec_calls) == 1, "normalize() rebuilds the statements with expand_comparisons at one site")
+    limit = ec_calls[0].lineno
+    zone: set[str] = set()
+    work = []
+    for call in find_nodes(norm.node, lambda n: isinstance(n, ast.Call)):
+        res = ck.prg.resolve_callee(norm, call.func)  # type: ignore[attr-defined]
+        if res in ck.prg.funcs and call.lineno <= limit:  # type: ignore[attr-defined]
+            work.append(res)
+    while work:
+        q = work.pop()
+        if q in zone:
+            continue
+        zone.add(q)
+        fn = ck.prg.funcs[q]
+        for q2 in ck.prg.funcs:
+            if q2.startswith(q + ".<locals>.") and q2 not in zone:
+                work.append(q2)
+        for call in find_nodes(fn.node, lambda n: isinstance(n, ast.Call)):
+            res = ck.prg.resolve_callee(fn, call.func)  # type: ignore[attr-defined]
+            if res in ck.prg.funcs and res not in zone:
+                work.append(res)
+            elif res in ck.prg.classes and f"{res}.__init__" in ck.prg.funcs:
+                work.append(f"{res}.__init__")
+    return zone
+
+
 def r_own(ck: Checker) -> None:
     """in-place edits of AST child vectors: only vectors that preprocess() has rebuilt (never the caller's)"""
     sites = 0
+    zone = _before_rebuild(ck)
+    ck.need(len(zone) >= 8, "functions that run before the statements are rebuilt")
+    ck.notes["C17.own.before-rebuild"] = len(zone)
     for func in ck.prg.funcs.values():
         if isinstance(func.node, ast.Lambda):
             continue
@@ -343,6 +377,10 @@ def r_own(ck: Checker) -> None:
             sites += 1
             for t in sorted(texts):
                 role = t.rsplit(".", 1)[-1]
+                if func.qualname in zone:
+                    ck.add(f"{how} on <node>.{role} before the statements are rebuilt", False, func, node, f"`{fmt(node)}` edits the live child vector `{short(t, 70)}` in place; {func.name} runs in normalize() before/while expand_comparisons rebuilds the statements",
+                           "up to that point `stm` is still the AST object the caller passed to optimize: `stm.body` is a live view of it, the caller's statement is rewritten", rule="C17.OWN.edit")
+                    continue
                 ok = role in REBUILT_ROLES and how != "attribute store"
                 ck.add(f"{how} on <node>.{role}", ok, func, node, f"`{fmt(node)}` edits the live child vector `{short(t, 70)}` in place",
                        "AST.update()/constructors share child nodes: an in-place edit of a vector that preprocess() did not rebuild writes into the statements the caller passed to optimize (or into statements shared between rounds)",
@@ -397,6 +435,8 @@ def r_own(ck: Checker) -> None:
             ck.add(f"parameter `{recv.id}` of {func.name} is edited in place: no caller passes a live AST child vector", not bad, func, node, f"`{fmt(node)}`; AST vectors passed: {sorted(set(bad))}",
                    "writing into `atom.symbol.arguments` of a statement edits the statement the caller of optimize passed in (and statements shared between rounds)", rule="C17.OWN.edit")
     ck.notes["C17.own.param-sites"] = psites
+    early = [o for o in ck.obs if o.rule == "C17.OWN.edit" and "before the statements are rebuilt" in o.sig and not o.ok]
+    ck.add("no function that runs before the statements are rebuilt edits an AST vector in place", not early, "normalize:normalize", None, f"{len(zone)} functions run on the caller's own statements (normalize() up to expand_comparisons and their callees); in-place edits among them: {len(early)}", "", rule="C17.OWN.edit")
     ck.notes["C17.own.sites"] = sites
     ck.need(sites >= 5, f"in-place AST edit sites found ({sites}) - the matcher is expected to see at least the known ones")
     # preprocess rebuilds exactly those vectors, unconditionally
